@@ -226,6 +226,33 @@ def main():
                 v["cex"] = cex
                 v.setdefault("errors", []).append(dict(kind="verif", title=f"obligation on changed text could not be discharged ({why}) and a failing input was found by replay",
                                                        text=json.dumps(cex)[:1500], lines=[], cover=False))
+    # demotion policy (DESIGN 2.3): an SMT failure on nonlinear field arithmetic is not a counterexample.  When the text of
+    # the function CHANGED, its obligation now fails, and an extended bounded search of that very function on the real
+    # code (3 seeds, 256 iterations per family, on top of the structured inputs) finds no failing input, the obligation
+    # is reported as undecided (exit 2) -- a semantics-preserving refactor must never raise an alarm.  Definite failures
+    # stay violations: falsified ground lemmas, Kani harnesses (bit-precise), functions no probe reaches, probes that do
+    # not run on the changed tree.  VERIF_STRICT=1 restores "every failed obligation is a violation".
+    if not os.environ.get("VERIF_STRICT"):
+        for (n, mod, mm, fm, v) in wanted:
+            if not (v and v["status"] == "failed") or v.get("cex"):
+                continue
+            if mod == "lemmas" or any(re_.search(r"simplifies to false|which evaluates to false|by\(compute", e.get("title", "")) for e in v.get("errors", [])):
+                continue
+            b = base.get(obl_key(n, mm, fm))
+            changed = (b is not None and fm.get("sha256") and b.get("sha256") != fm.get("sha256"))
+            if not changed:
+                continue
+            try:
+                from vx import replay as vreplay
+                sr = vreplay.search(pid, n, mm, fm, seed, iters=256, seeds=3)
+            except Exception:
+                sr = {}
+            if sr.get("input"):
+                v["cex"] = sr
+            elif sr.get("ran", 0) > 0 and not sr.get("norun"):
+                v["status"] = "undecided"
+                v.setdefault("errors", []).append(dict(kind="other", title=f"not discharged on changed text, but {sr['ran']} bounded checks of the same function on the real code ({', '.join(p_ for (_f, p_) in sr['probes'])}; 3 seeds) found no failing input: undecided, not a violation",
+                                                       text="", lines=[], cover=False))
     failed = [(n, mod, mm, fm, v) for (n, mod, mm, fm, v) in wanted if v and v["status"] == "failed"]
     failed += [(o["unit"], "", dict(file=o.get("file", ""), header=None), dict(fn=o["name"]),
                 dict(status="failed", cex=o.get("cex"), errors=[dict(kind="verif", title=o.get("detail", ""), text=o.get("detail", ""))]))
